@@ -92,7 +92,14 @@ def run_check(prop, tier, keep=False, only=None, jobs=16):
             groups = {}
             for m, h in sel:
                 groups.setdefault(m.cbmc_args, []).append((m, h))
-            for cbmc_args, items in groups.items():
+            # kani-driver keeps every harness' output in memory (537 harnesses: 55 GB RSS, killed by the OOM killer), so
+            # one invocation handles at most KANI_CHUNK harnesses
+            KANI_CHUNK = 100
+            chunks = []
+            for cbmc_args, items0 in groups.items():
+                for k in range(0, len(items0), KANI_CHUNK):
+                    chunks.append((cbmc_args, items0[k:k + KANI_CHUNK]))
+            for cbmc_args, items in chunks:
                 names = [m.full_name(h.name) for m, h in items]
                 res, log, compile_ok, wall, cmd = kani.run(
                     repo, names, jobs=jobs, harness_timeout=cfg.get("harness_timeout", 420),
